@@ -46,6 +46,7 @@ type rec struct {
 	a, b  int64
 	comps []comp
 	ran   bool
+	stuck bool // the owner dead-locked while working on this op
 }
 
 // nestSpec: ops to run from inside the k-th completion callback of the op being executed
@@ -66,6 +67,7 @@ type hist struct {
 	t0    time.Time
 	mu    sync.Mutex
 	recs  []*rec // one record per executed (or skipped) op, in the order of the input (outer op, then its nested ops)
+	top   *rec   // the outer op the owner is working on
 	cur   *rec   // the op being executed: completions are attributed to it
 	nest  *nestSpec
 	bad   bool // a blocking caller neither returned nor parked
@@ -184,13 +186,74 @@ func (r *rec) sx() Sx {
 	if !r.ran {
 		return List(Int(-9), Int(0), List())
 	}
-	cs := r.comps
+	cs := append([]comp(nil), r.comps...)
 	sort.Slice(cs, func(i, j int) bool { return cs[i].cid < cs[j].cid })
 	l := make([]Sx, len(cs))
 	for i, c := range cs {
 		l[i] = Ints(c.cid, c.how, c.code, c.rid)
 	}
+	if r.stuck {
+		return List(Int(-8), Int(0), ListOf(l))
+	}
 	return List(Int(r.a), Int(r.b), ListOf(l))
+}
+
+func flatLen(ops Sx) int {
+	n := 0
+	for i := 0; i < ops.Len(); i++ {
+		n++
+		if _, nested, ok := nestedOf(ops.At(i)); ok {
+			n += nested.Len()
+		}
+	}
+	return n
+}
+
+// watch waits for the owner to finish.  stuck: the owner is parked in sync.Mutex.Lock inside the
+// client and no other goroutine of the history can be holding that mutex (goroutine dump).
+func (h *hist) watch(done chan struct{}, ownerGid *int32) (stuck, slow bool) {
+	deadline := time.Now().Add(40 * time.Second)
+	pause := 200 * time.Microsecond
+	for {
+		select {
+		case <-done:
+			return false, false
+		case <-time.After(pause):
+		}
+		if pause < 5*time.Millisecond {
+			pause *= 2
+		}
+		if time.Now().After(deadline) {
+			return false, true
+		}
+		gid := int(atomic.LoadInt32(ownerGid))
+		d := GDump()
+		g := d[gid]
+		if g == nil || g.State != "sync.Mutex.Lock" || !strings.Contains(g.Text, "qnet.(*RpcClient)") {
+			continue
+		}
+		others := true
+		h.mu.Lock()
+		syncs := append([]*syncCall(nil), h.syncs...)
+		h.mu.Unlock()
+		for _, s := range syncs {
+			if atomic.LoadInt32(&s.done) != 0 {
+				continue
+			}
+			sg := d[int(atomic.LoadInt32(&s.gid))]
+			if sg == nil || sg.State != "chan receive" || !strings.Contains(sg.Text, fCall) || strings.Contains(sg.Text, "makeCall") {
+				others = false
+			}
+		}
+		if others {
+			select {
+			case <-done:
+				return false, false
+			default:
+				return true, false
+			}
+		}
+	}
 }
 
 var node = fatchoy.MakeNodeID(3, 7)
@@ -254,7 +317,9 @@ func (h *hist) exec(op Sx, r *rec) {
 		var queued bool
 		if op.At(1).AsBool() {
 			sc := &syncCall{}
+			h.mu.Lock()
 			h.syncs = append(h.syncs, sc)
+			h.mu.Unlock()
 			go func() {
 				atomic.StoreInt32(&sc.gid, int32(Goid()))
 				var ctx *qnet.RpcContext
@@ -320,23 +385,49 @@ func run(in Sx) Sx {
 	}
 	h := newHist(uint16(in.At(0).Uint64()))
 	ops := in.At(1)
-	for i := 0; i < ops.Len(); i++ {
-		op := ops.At(i)
-		r := &rec{}
-		h.recs = append(h.recs, r)
-		// reserve the records of the nested ops right behind (they stay "not run" if no callback fires)
-		var n *nestSpec
-		if k, nested, ok := nestedOf(op); ok {
-			n = &nestSpec{k: k, ops: nested}
-			for j := 0; j < nested.Len(); j++ {
-				nr := &rec{}
-				n.recs = append(n.recs, nr)
-				h.recs = append(h.recs, nr)
+	// the ops run on an "owner" goroutine (the thread that calls Dispatch / ReapTimeout); the
+	// controller watches it: an owner parked in the client's mutex while nobody else can hold it
+	// (every blocking caller returned or parked in Call's receive) will never move again
+	done := make(chan struct{})
+	var ownerGid int32
+	go func() {
+		defer close(done)
+		atomic.StoreInt32(&ownerGid, int32(Goid()))
+		for i := 0; i < ops.Len(); i++ {
+			op := ops.At(i)
+			r := &rec{}
+			h.mu.Lock()
+			h.recs = append(h.recs, r)
+			h.top = r
+			// reserve the records of the nested ops right behind (they stay "not run" if no callback fires)
+			var n *nestSpec
+			if k, nested, ok := nestedOf(op); ok {
+				n = &nestSpec{k: k, ops: nested}
+				for j := 0; j < nested.Len(); j++ {
+					nr := &rec{}
+					n.recs = append(n.recs, nr)
+					h.recs = append(h.recs, nr)
+				}
 			}
+			h.mu.Unlock()
+			h.nest = n
+			h.exec(op, r)
+			h.nest = nil
 		}
-		h.nest = n
-		h.exec(op, r)
-		h.nest = nil
+	}()
+	stuck, slow := h.watch(done, &ownerGid)
+	h.mu.Lock()
+	if stuck && h.top != nil {
+		h.top.stuck = true
+	}
+	recs := append([]*rec(nil), h.recs...)
+	for len(recs) < flatLen(ops) { // ops the owner never reached
+		recs = append(recs, &rec{})
+	}
+	h.mu.Unlock()
+	h.recs = recs
+	if slow {
+		h.bad = true
 	}
 	inconclusive := h.bad
 	obs := make([]Sx, len(h.recs))
